@@ -119,7 +119,16 @@ def check_shared(spec, pa, pb, mode, via):
         a = pos[tuple(pa)]
         b = pos[tuple(pb)]
         if via == "preverified":
-            attempt(pos[tuple(pa[:1])][2], mode, 2)
+            sub = pos[tuple(pa[:1])][2]
+            # (a subtree without any quantity cannot be filled from arrays on its own: it has no way to learn the
+            # number of rows - C03 is about trees with at least one quantity-bearing node; fill it row-wise then)
+            from ..invariants import _kids
+
+            def has_quantity(n):
+                return getattr(n, "quantity", None) is not None and n.name != "Count" or any(
+                    has_quantity(k) for _, k in _kids(n))
+
+            attempt(sub, mode if has_quantity(sub) else "fill", 2)
         install(b[0], b[1], a[2])
     except Exception as e:
         return [core.v_exc(PROP, "shared", "harness could not build the shared tree", e, args)]
